@@ -551,7 +551,16 @@ pub fn cycles(seed: u64, count: usize) -> Report {
             .collect();
         let use_storage = rng.chance(1, 3);
         let overwrite = rng.chance(1, 3);
-        desc.push_str(&format!("] cycle{:?} storage={} overwrite={}", sizes, use_storage, overwrite));
+        // a persistent small stream that each repetition rewrites from offset 0 with a large
+        // write through a fresh handle (mini -> regular migration) and then shrinks back
+        let rewrite_persistent = rng.chance(1, 2);
+        if rewrite_persistent {
+            let mut s = c.create_stream("/keep").unwrap();
+            s.write_all(&vec![3u8; *rng.pick(&[100usize, 64, 700, 4000])]).unwrap();
+        }
+        let keep_len = if rewrite_persistent { c.entry("/keep").unwrap().len() } else { 0 };
+        let big_len = *rng.pick(&[4096usize, 5000, 9000]); // fixed per case: every repetition is the same cycle
+        desc.push_str(&format!("] cycle{:?} storage={} overwrite={} rewrite_persistent={}", sizes, use_storage, overwrite, rewrite_persistent));
         let mut lens = Vec::new();
         for _rep in 0..5 {
             if use_storage {
@@ -566,6 +575,24 @@ pub fn cycles(seed: u64, count: usize) -> Report {
                     let mut s = c.create_stream(format!("{}/t{}", base, k)).unwrap();
                     s.write_all(&vec![8u8; sz / 2]).unwrap();
                     s.set_len((sz / 3) as u64).unwrap();
+                }
+            }
+            if rewrite_persistent {
+                {
+                    let mut s = c.open_stream("/keep").unwrap();
+                    s.write_all(&vec![6u8; big_len]).unwrap();
+                }
+                {
+                    let mut s = c.open_stream("/keep").unwrap();
+                    s.set_len(keep_len).unwrap();
+                    s.seek(SeekFrom::Start(0)).unwrap();
+                    s.write_all(&vec![3u8; keep_len as usize]).unwrap();
+                }
+                // grow by set_len across the cutoff and back
+                {
+                    let mut s = c.open_stream("/keep").unwrap();
+                    s.set_len(6000).unwrap();
+                    s.set_len(keep_len).unwrap();
                 }
             }
             if use_storage {
@@ -701,6 +728,32 @@ fn read_workload(
                     if errs > 6 {
                         bad.push(format!("{}: read keeps failing", p));
                         break;
+                    }
+                    // the handle must stay usable in every direction after a failed call:
+                    // step back into what was already consumed, re-read, come back
+                    for back in [1500u64, 300, 1] {
+                        if pos_after != u64::MAX && pos_after >= back {
+                            let target = pos_after - back;
+                            if s.seek(SeekFrom::Start(target)).is_ok() {
+                                let mut t = vec![0u8; 700];
+                                if let Ok(k) = s.read(&mut t) {
+                                    let st = target as usize;
+                                    if st + k > data.len() || t[..k] != data[st..st + k] {
+                                        bad.push(format!("{}: after a failed read, seeking back to {} and reading returned {} bytes that differ from the stream's content", p, st, k));
+                                    }
+                                }
+                            }
+                            let mut okb = false;
+                            for _ in 0..4 {
+                                if s.seek(SeekFrom::Start(pos_after)).is_ok() {
+                                    okb = true;
+                                    break;
+                                }
+                            }
+                            if !okb {
+                                bad.push(format!("{}: cannot seek back to {} after the probe", p, pos_after));
+                            }
+                        }
                     }
                 }
             }
@@ -992,4 +1045,575 @@ pub fn writefault_one(v3: bool, maxbuf: usize, k: u64) {
     let v = if v3 { Version::V3 } else { Version::V4 };
     let r = write_workload(v, maxbuf, &[k]);
     println!("{:?}", r);
+}
+
+// ---------------------------------------------------------------------------
+// C18: the same history on different backends / chunkings / buffer sizes
+// ---------------------------------------------------------------------------
+struct FileBackend(std::fs::File);
+impl Read for FileBackend {
+    fn read(&mut self, b: &mut [u8]) -> std::io::Result<usize> { self.0.read(b) }
+}
+impl Write for FileBackend {
+    fn write(&mut self, b: &[u8]) -> std::io::Result<usize> { self.0.write(b) }
+    fn flush(&mut self) -> std::io::Result<()> { self.0.flush() }
+}
+impl Seek for FileBackend {
+    fn seek(&mut self, p: SeekFrom) -> std::io::Result<u64> { self.0.seek(p) }
+}
+
+#[derive(Clone, Debug)]
+enum COp {
+    Storage(String),
+    Put(String, Vec<u8>),
+    Append(String, Vec<u8>),
+    SetLen(String, u64),
+    Remove(String),
+    RemoveStorage(String),
+    State(String, u32),
+}
+
+fn gen_cops(rng: &mut Rng, n: usize) -> Vec<COp> {
+    let mut ops = Vec::new();
+    let mut streams: Vec<String> = Vec::new();
+    let mut dirs: Vec<String> = vec!["".into()];
+    let mut tag = 0u32;
+    for i in 0..n {
+        tag += 1;
+        let sz = *rng.pick(SIZES);
+        let data: Vec<u8> = (0..sz).map(|k| ((tag * 29 + k as u32 * 5 + (k as u32 >> 8)) % 255 + 1) as u8).collect();
+        match rng.below(10) {
+            0 | 1 => {
+                let d = format!("{}/d{}", rng.pick(&dirs).clone(), i);
+                dirs.push(d.clone());
+                ops.push(COp::Storage(d));
+            }
+            2 | 3 | 4 => {
+                let p = format!("{}/s{}", rng.pick(&dirs).clone(), i % 7);
+                if !streams.contains(&p) {
+                    streams.push(p.clone());
+                }
+                ops.push(COp::Put(p, data));
+            }
+            5 if !streams.is_empty() => ops.push(COp::Append(rng.pick(&streams).clone(), data)),
+            6 if !streams.is_empty() => ops.push(COp::SetLen(rng.pick(&streams).clone(), sz as u64)),
+            7 if !streams.is_empty() => {
+                let k = rng.below(streams.len() as u64) as usize;
+                ops.push(COp::Remove(streams.remove(k)));
+            }
+            8 if dirs.len() > 1 => ops.push(COp::State(rng.pick(&dirs[1..]).clone(), i as u32)),
+            _ => ops.push(COp::State("/".into(), i as u32)),
+        }
+    }
+    let _ = COp::RemoveStorage(String::new());
+    ops
+}
+
+fn run_cops<F: Read + Write + Seek>(comp: &mut CompoundFile<F>, ops: &[COp]) -> Vec<String> {
+    let mut log = Vec::new();
+    for op in ops {
+        let r: std::io::Result<()> = (|| match op {
+            COp::Storage(p) => comp.create_storage(p),
+            COp::Put(p, d) => {
+                let mut s = comp.create_stream(p)?;
+                s.write_all(d)?;
+                s.flush()
+            }
+            COp::Append(p, d) => {
+                let mut s = comp.open_stream(p)?;
+                s.seek(SeekFrom::End(0))?;
+                s.write_all(d)?;
+                s.flush()
+            }
+            COp::SetLen(p, n) => {
+                let mut s = comp.open_stream(p)?;
+                s.set_len(*n)
+            }
+            COp::Remove(p) => comp.remove_stream(p),
+            COp::RemoveStorage(p) => comp.remove_storage(p),
+            COp::State(p, b) => comp.set_state_bits(p, *b),
+        })();
+        log.push(match r {
+            Ok(()) => "ok".to_string(),
+            Err(e) => format!("err:{:?}", e.kind()),
+        });
+    }
+    // logical dump
+    let entries: Vec<cfb::Entry> = comp.walk().collect();
+    for e in entries {
+        let mut line = format!("{}:{}:{}", e.path().display(), e.len(), e.state_bits());
+        if e.is_stream() {
+            let mut v = Vec::new();
+            if let Ok(mut s) = comp.open_stream(e.path()) {
+                let _ = s.read_to_end(&mut v);
+            }
+            line.push_str(&format!(":{:x}", fnv(&v)));
+        }
+        log.push(line);
+    }
+    log
+}
+
+pub fn configs(seed: u64, count: usize) -> Report {
+    let mut rep = Report::new();
+    let mut master = Rng::new(seed);
+    let dir = std::path::PathBuf::from(std::env::var("CFBH_TMP").unwrap_or_else(|_| "/verif/work/tmp".into()));
+    let _ = std::fs::create_dir_all(&dir);
+    for i in 0..count {
+        let mut rng = master.fork();
+        let nops = 12 + rng.below(20) as usize;
+        let ops = gen_cops(&mut rng, nops);
+        rep.distinct.insert(format!("{:?}", ops.iter().map(|o| format!("{:?}", o).chars().take(24).collect::<String>()).collect::<Vec<_>>()));
+        if rep.samples.len() < 2 {
+            rep.samples.push(ops.iter().take(8).map(|o| format!("{:?}", o).chars().take(40).collect::<String>()).collect::<Vec<_>>().join("; "));
+        }
+        let mut logical: Option<Vec<String>> = None;
+        for v in [Version::V3, Version::V4] {
+            cfb::verif::verif_clock_set(Some(132_000_000_000_000_000));
+            let mut reference: Option<(Vec<u8>, Vec<String>)> = None;
+            // configurations: (label, chunk seed, maxbuf, use a real file, repeat)
+            // the first five share one buffer size: results AND bytes must be identical (repeat
+            // run, chunking backends, real file); the last three vary the buffer size: the
+            // logical results must be identical, the layout may differ
+            let cfgs: [(&str, Option<u64>, usize, bool); 8] = [
+                ("memory", None, 4096, false),
+                ("memory-again", None, 4096, false),
+                ("chunked-a", Some(11), 4096, false),
+                ("chunked-b", Some(9999 + i as u64), 4096, false),
+                ("file", None, 4096, true),
+                ("memory-buf1", None, 1, false),
+                ("memory-buf1500", None, 1500, false),
+                ("memory-buf1M", None, 1 << 20, false),
+            ];
+            for (label, chunk, maxbuf, on_file) in cfgs.iter() {
+                rep.evaluations += 1;
+                let (bytes, log) = if *on_file {
+                    let path = dir.join(format!("cfbh-c18-{}-{}-{}.cfb", std::process::id(), seed, i));
+                    let f = std::fs::OpenOptions::new().read(true).write(true).create(true).truncate(true).open(&path).unwrap();
+                    let c0 = CompoundFile::create_with_version(v, FileBackend(f)).unwrap();
+                    drop(c0);
+                    let f = std::fs::OpenOptions::new().read(true).write(true).open(&path).unwrap();
+                    let mut comp = cfb::OpenOptions::new().max_buffer_size(*maxbuf).open_with(FileBackend(f)).unwrap();
+                    let log = run_cops(&mut comp, &ops);
+                    let _ = comp.flush();
+                    drop(comp);
+                    let bytes = std::fs::read(&path).unwrap();
+                    let _ = std::fs::remove_file(&path);
+                    (bytes, log)
+                } else {
+                    let buf = SharedBuf::new(Vec::new());
+                    let c0 = CompoundFile::create_with_version(v, buf.clone()).unwrap();
+                    drop(c0);
+                    if let Some(cs) = chunk {
+                        buf.ctl.lock().unwrap().chunk = Some(Rng::new(*cs));
+                    }
+                    let mut comp = cfb::OpenOptions::new().max_buffer_size(*maxbuf).open_with(buf.clone()).unwrap();
+                    let log = run_cops(&mut comp, &ops);
+                    (buf.snapshot(), log)
+                };
+                match &reference {
+                    None => reference = Some((bytes, log.clone())),
+                    Some((rb, rl)) => {
+                        if *rl != log {
+                            let d = rl.iter().zip(log.iter()).position(|(a, b)| a != b);
+                            rep.fail(format!("configs seed={} case={} {:?} config={}: observable results differ from the in-memory run at item {:?}: {:?} vs {:?}", seed, i, v, label, d, d.map(|k| rl[k].clone()), d.map(|k| log[k].clone())));
+                        } else if *maxbuf == 4096 && *rb != bytes {
+                            let d = rb.iter().zip(bytes.iter()).position(|(a, b)| a != b);
+                            rep.fail(format!("configs seed={} case={} {:?} config={}: file bytes differ from the in-memory run (lengths {} / {}, first difference at {:?})", seed, i, v, label, rb.len(), bytes.len(), d));
+                        }
+                    }
+                }
+                if *label == "memory" {
+                    // logical outcome must not depend on the version either
+                    match &logical {
+                        None => logical = Some(log),
+                        Some(l) => {
+                            if *l != log {
+                                rep.fail(format!("configs seed={} case={}: logical results differ between V3 and V4", seed, i));
+                            }
+                        }
+                    }
+                }
+            }
+        }
+    }
+    cfb::verif::verif_clock_set(None);
+    rep
+}
+
+// ---------------------------------------------------------------------------
+// C17: clock bracket for creation stamps and touch (clock hook off)
+// ---------------------------------------------------------------------------
+pub fn meta_clock(_seed: u64, count: usize) -> Report {
+    let mut rep = Report::new();
+    cfb::verif::verif_clock_set(None);
+    for i in 0..count {
+        let (_b, mut c) = fresh(if i % 2 == 0 { Version::V3 } else { Version::V4 }, 4096);
+        let before = web_time::SystemTime::now();
+        c.create_storage("/d").unwrap();
+        let after = web_time::SystemTime::now();
+        let e = c.entry("/d").unwrap();
+        rep.evaluations += 1;
+        rep.distinct.insert(format!("{}", i));
+        // stored at 100 ns resolution rounded toward the epoch: allow that much below `before`
+        let slack = std::time::Duration::from_nanos(100);
+        if e.created() + slack < before || e.created() > after || e.modified() + slack < before || e.modified() > after {
+            rep.fail(format!("meta: creation stamp {:?} not within [{:?}, {:?}]", e.created(), before, after));
+        }
+        drop(c.create_stream("/s").unwrap());
+        let es = c.entry("/s").unwrap();
+        if es.created() != web_time::SystemTime::UNIX_EPOCH - std::time::Duration::from_secs(11_644_473_600)
+            || !es.clsid().is_nil()
+        {
+            rep.fail("meta: a new stream reports a CLSID or non-zero times".into());
+        }
+        let b2 = web_time::SystemTime::now();
+        c.touch("/d").unwrap();
+        let a2 = web_time::SystemTime::now();
+        let m = c.entry("/d").unwrap().modified();
+        if m + slack < b2 || m > a2 {
+            rep.fail(format!("meta: touch stamp {:?} not within [{:?}, {:?}]", m, b2, a2));
+        }
+        c.touch("/s").unwrap();
+        if c.entry("/s").unwrap().modified() != es.modified() {
+            rep.fail("meta: touch changed a stream's modified time".into());
+        }
+        if c.touch("/nope").map_err(|e| e.kind()) != Err(std::io::ErrorKind::NotFound) {
+            rep.fail("meta: touch on a missing path is not NotFound".into());
+        }
+    }
+    rep.samples.push("create_storage / touch bracketed by SystemTime::now() with the clock hook off".into());
+    rep
+}
+
+// ---------------------------------------------------------------------------
+// C16: documented deviations injected into valid images
+// ---------------------------------------------------------------------------
+struct Parsed {
+    sl: usize,
+    fat_secs: Vec<u32>,
+    fat: Vec<u32>,
+    dir_secs: Vec<u32>,
+    nsect: usize,
+}
+
+fn rd32(b: &[u8], off: usize) -> u32 {
+    u32::from_le_bytes([b[off], b[off + 1], b[off + 2], b[off + 3]])
+}
+fn wr32(b: &mut [u8], off: usize, v: u32) {
+    b[off..off + 4].copy_from_slice(&v.to_le_bytes());
+}
+
+fn parse_img(b: &[u8]) -> Parsed {
+    let sl = if u16::from_le_bytes([b[26], b[27]]) == 3 { 512 } else { 4096 };
+    let nsect = b.len() / sl - 1;
+    let mut fat_secs = Vec::new();
+    for i in 0..109 {
+        let v = rd32(b, 76 + 4 * i);
+        if v == 0xFFFF_FFFF {
+            break;
+        }
+        fat_secs.push(v);
+    }
+    let mut fat = Vec::new();
+    for &f in fat_secs.iter() {
+        for i in 0..sl / 4 {
+            fat.push(rd32(b, (f as usize + 1) * sl + 4 * i));
+        }
+    }
+    let mut dir_secs = Vec::new();
+    let mut cur = rd32(b, 48);
+    while cur < 0xFFFF_FFFA && dir_secs.len() < nsect {
+        dir_secs.push(cur);
+        cur = fat[cur as usize];
+    }
+    Parsed { sl, fat_secs, fat, dir_secs, nsect }
+}
+
+impl Parsed {
+    fn entry_off(&self, id: usize) -> usize {
+        let per = self.sl / 128;
+        (self.dir_secs[id / per] as usize + 1) * self.sl + (id % per) * 128
+    }
+    fn nentries(&self) -> usize {
+        self.dir_secs.len() * (self.sl / 128)
+    }
+    fn fat_cell_off(&self, i: usize) -> usize {
+        let per = self.sl / 4;
+        (self.fat_secs[i / per] as usize + 1) * self.sl + 4 * (i % per)
+    }
+}
+
+fn full_dump(bytes: &[u8], strict: bool) -> Result<Vec<String>, String> {
+    let b = SharedBuf::new(bytes.to_vec());
+    let r = catch_unwind(AssertUnwindSafe(|| {
+        let mut oo = cfb::OpenOptions::new();
+        if strict {
+            oo = oo.strict();
+        }
+        let mut comp = oo.open_with(b).map_err(|e| format!("open: {}", e))?;
+        let entries: Vec<cfb::Entry> = comp.walk().collect();
+        let mut out = Vec::new();
+        for e in entries {
+            let mut line = format!(
+                "{}|{}|{}|{:032x}|{}|{:?}|{:?}|{}",
+                e.name(), e.path().display(), e.is_stream(), e.clsid().as_u128(), e.state_bits(), e.created(), e.modified(),
+                if e.is_root() { 0 } else { e.len() }
+            );
+            if e.is_stream() {
+                let mut v = Vec::new();
+                comp.open_stream(e.path()).map_err(|x| x.to_string())?.read_to_end(&mut v).map_err(|x| format!("read {}: {}", e.path().display(), x))?;
+                line.push_str(&format!("|{:x}", fnv(&v)));
+            }
+            out.push(line);
+        }
+        Ok::<Vec<String>, String>(out)
+    }));
+    match r {
+        Ok(x) => x,
+        Err(_) => Err("PANIC".into()),
+    }
+}
+
+pub fn deviations(seed: u64, count: usize) -> Report {
+    let mut rep = Report::new();
+    let mut master = Rng::new(seed);
+    for i in 0..count {
+        let mut rng = master.fork();
+        let v = if rng.chance(1, 2) { Version::V3 } else { Version::V4 };
+        // a valid image with storages, mini streams and regular streams
+        let (buf, mut c) = fresh(v, 4096);
+        c.create_storage("/d").unwrap();
+        c.create_storage("/d/e").unwrap();
+        let nstreams = 2 + rng.below(5) as usize;
+        for k in 0..nstreams {
+            let p = match k % 3 { 0 => format!("/s{}", k), 1 => format!("/d/t{}", k), _ => format!("/d/e/u{}", k) };
+            let n = *rng.pick(&[1usize, 64, 100, 700, 3000, 4096, 5000, 9000]);
+            let mut s = c.create_stream(&p).unwrap();
+            s.write_all(&(0..n).map(|j| (j * 5 + k) as u8 | 1).collect::<Vec<u8>>()).unwrap();
+        }
+        c.set_storage_clsid("/d", uuid::Uuid::from_u128(0x1234)).unwrap();
+        drop(c);
+        let clean = buf.snapshot();
+        let want = match full_dump(&clean, true) {
+            Ok(d) => d,
+            Err(e) => {
+                rep.fail(format!("deviations seed={} case={}: strict open rejects a file the library wrote: {}", seed, i, e));
+                continue;
+            }
+        };
+        let p = parse_img(&clean);
+        // entries by type
+        let mut streams = Vec::new();
+        let mut storages = Vec::new();
+        for id in 1..p.nentries() {
+            match clean[p.entry_off(id) + 66] {
+                2 => streams.push(id),
+                1 => storages.push(id),
+                _ => {}
+            }
+        }
+        let mut devs: Vec<(&str, Box<dyn Fn(&mut Vec<u8>, &mut Rng) -> bool>)> = Vec::new();
+        let pp = &p;
+        devs.push(("zero-padded FAT", Box::new(move |b, _| {
+            let mut any = false;
+            for idx in pp.nsect..pp.fat.len() {
+                if pp.fat[idx] == 0xFFFF_FFFF {
+                    wr32(b, pp.fat_cell_off(idx), 0);
+                    any = true;
+                }
+            }
+            any
+        })));
+        devs.push(("FAT sector not marked in the FAT", Box::new(move |b, r| {
+            let f = pp.fat_secs[r.below(pp.fat_secs.len() as u64) as usize] as usize;
+            wr32(b, pp.fat_cell_off(f), *r.pick(&[0xFFFF_FFFEu32, 0xFFFF_FFFF]));
+            true
+        })));
+        devs.push(("first DIFAT sector = FREE_SECTOR", Box::new(move |b, _| {
+            wr32(b, 68, 0xFFFF_FFFF);
+            true
+        })));
+        let st = streams.clone();
+        devs.push(("CLSID on a stream", Box::new(move |b, r| {
+            if st.is_empty() { return false; }
+            let id = st[r.below(st.len() as u64) as usize];
+            b[pp.entry_off(id) + 80 + r.below(16) as usize] = 0x5A;
+            true
+        })));
+        let st = streams.clone();
+        devs.push(("timestamps on a stream", Box::new(move |b, r| {
+            if st.is_empty() { return false; }
+            let id = st[r.below(st.len() as u64) as usize];
+            b[pp.entry_off(id) + 100 + r.below(16) as usize] = 0x77;
+            true
+        })));
+        let sg = storages.clone();
+        devs.push(("start sector / size on a storage", Box::new(move |b, r| {
+            if sg.is_empty() { return false; }
+            let id = sg[r.below(sg.len() as u64) as usize];
+            if r.chance(1, 2) {
+                wr32(b, pp.entry_off(id) + 116, *r.pick(&[0xFFFF_FFFEu32, 0xFFFF_FFFF, 7]));
+            } else {
+                wr32(b, pp.entry_off(id) + 120, 99);
+            }
+            true
+        })));
+        devs.push(("wrong root name", Box::new(move |b, _| {
+            let off = pp.entry_off(0);
+            b[off] = b'X';
+            true
+        })));
+        let st = streams.clone();
+        devs.push(("unterminated name", Box::new(move |b, r| {
+            if st.is_empty() { return false; }
+            let id = st[r.below(st.len() as u64) as usize];
+            let off = pp.entry_off(id);
+            let nl = u16::from_le_bytes([b[off + 64], b[off + 65]]) as usize;
+            if nl < 2 { return false; }
+            b[off + nl - 2] = b'q';
+            true
+        })));
+        devs.push(("wrong FAT sector count in the header", Box::new(move |b, r| {
+            let cur = rd32(b, 44);
+            wr32(b, 44, if r.chance(1, 2) { cur + 1 + r.below(3) as u32 } else { cur.saturating_sub(1) });
+            rd32(b, 44) != cur
+        })));
+        devs.push(("wrong DIFAT sector count in the header", Box::new(move |b, r| {
+            wr32(b, 72, 1 + r.below(3) as u32);
+            true
+        })));
+        devs.push(("wrong MiniFAT sector count in the header", Box::new(move |b, r| {
+            let cur = rd32(b, 64);
+            let nv = match r.below(3) { 0 => 0, 1 => cur + 1 + r.below(3) as u32, _ => cur.saturating_sub(1) };
+            wr32(b, 64, nv);
+            nv != cur
+        })));
+        devs.push(("non-zero directory sector count in version 3", Box::new(move |b, r| {
+            if pp.sl != 512 { return false; }
+            wr32(b, 40, 1 + r.below(5) as u32);
+            true
+        })));
+        let all: Vec<usize> = (1..p.nentries()).filter(|&id| matches!(clean[p.entry_off(id) + 66], 1 | 2)).collect();
+        let cl = clean.clone();
+        devs.push(("adjacent red nodes", Box::new(move |b, _| {
+            // find a node with a sibling link to another node; colour both red
+            for &id in all.iter() {
+                let off = pp.entry_off(id);
+                for lo in [68usize, 72] {
+                    let k = rd32(&cl, off + lo);
+                    if k != 0xFFFF_FFFF && (k as usize) < pp.nentries() {
+                        b[off + 67] = 0;
+                        b[pp.entry_off(k as usize) + 67] = 0;
+                        return true;
+                    }
+                }
+            }
+            false
+        })));
+        // singly, then one random combination
+        let mut plans: Vec<Vec<usize>> = (0..devs.len()).map(|k| vec![k]).collect();
+        let a = rng.below(devs.len() as u64) as usize;
+        let b2 = rng.below(devs.len() as u64) as usize;
+        let c3 = rng.below(devs.len() as u64) as usize;
+        plans.push(vec![a, b2, c3]);
+        for plan in plans {
+            let mut img = clean.clone();
+            let mut names = Vec::new();
+            for &k in plan.iter() {
+                if (devs[k].1)(&mut img, &mut rng) {
+                    names.push(devs[k].0);
+                }
+            }
+            if names.is_empty() || img == clean {
+                continue;
+            }
+            rep.evaluations += 1;
+            rep.distinct.insert(format!("{:?}-{:?}-{}", v, names, nstreams));
+            if rep.samples.len() < 3 {
+                rep.samples.push(format!("{:?} {} streams: {}", v, nstreams, names.join(" + ")));
+            }
+            match full_dump(&img, false) {
+                Ok(got) => {
+                    if got != want {
+                        let d = got.iter().zip(want.iter()).position(|(x, y)| x != y);
+                        rep.fail(format!("deviations seed={} case={} {:?} [{}]: permissive open exposes different content (entry {:?}: {:?} vs {:?}; {} vs {} entries)", seed, i, v, names.join(" + "), d, d.map(|k| got[k].clone()), d.map(|k| want[k].clone()), got.len(), want.len()));
+                    }
+                }
+                Err(e) => rep.fail(format!("deviations seed={} case={} {:?} [{}]: permissive open/read fails: {}", seed, i, v, names.join(" + "), e)),
+            }
+            // "first DIFAT = FREE" is read as END_OF_CHAIN in both modes; every other deviation must be rejected by strict
+            let strict_must_reject = names.iter().any(|n| *n != "first DIFAT sector = FREE_SECTOR");
+            match full_dump(&img, true) {
+                Ok(got) => {
+                    if strict_must_reject {
+                        rep.fail(format!("deviations seed={} case={} {:?} [{}]: strict open accepts the deviation", seed, i, v, names.join(" + ")));
+                    } else if got != want {
+                        rep.fail(format!("deviations seed={} case={} {:?} [{}]: strict open exposes different content", seed, i, v, names.join(" + ")));
+                    }
+                }
+                Err(e) => {
+                    if e == "PANIC" {
+                        rep.fail(format!("deviations seed={} case={} {:?} [{}]: strict open panicked", seed, i, v, names.join(" + ")));
+                    }
+                }
+            }
+        }
+    }
+    rep
+}
+
+pub fn cycle_debug() {
+    let v = Version::V3;
+    let (buf, mut c) = fresh(v, 4096);
+    {
+        let mut s = c.create_stream("/p0").unwrap();
+        s.write_all(&[5u8; 1]).unwrap();
+    }
+    {
+        let mut s = c.create_stream("/keep").unwrap();
+        s.write_all(&vec![3u8; 100]).unwrap();
+    }
+    let keep_len = 100u64;
+    for rep in 0..6 {
+        {
+            let mut s = c.create_stream("/t0").unwrap();
+            s.write_all(&[9u8; 1]).unwrap();
+        }
+        {
+            let mut s = c.open_stream("/keep").unwrap();
+            s.write_all(&vec![6u8; 5000]).unwrap();
+        }
+        {
+            let mut s = c.open_stream("/keep").unwrap();
+            s.set_len(keep_len).unwrap();
+            s.seek(SeekFrom::Start(0)).unwrap();
+            s.write_all(&vec![3u8; keep_len as usize]).unwrap();
+        }
+        {
+            let mut s = c.open_stream("/keep").unwrap();
+            s.set_len(6000).unwrap();
+            s.set_len(keep_len).unwrap();
+        }
+        c.remove_stream("/t0").unwrap();
+        let b = buf.snapshot();
+        let p = parse_img(&b);
+        let free = p.fat.iter().take(p.nsect).filter(|&&x| x == 0xFFFF_FFFF).count();
+        let root_off = p.entry_off(0);
+        let root_start = rd32(&b, root_off + 116);
+        let root_len = rd32(&b, root_off + 120);
+        let mut ms_chain = 0;
+        let mut cur = root_start;
+        while cur < 0xFFFF_FFFA && ms_chain < 1000 {
+            ms_chain += 1;
+            cur = p.fat[cur as usize];
+        }
+        let mut mf_chain = 0;
+        let mut cur = rd32(&b, 60);
+        while cur < 0xFFFF_FFFA && mf_chain < 1000 {
+            mf_chain += 1;
+            cur = p.fat[cur as usize];
+        }
+        println!("rep {} len={} nsect={} free_fat_cells={} root_len={} mini_stream_chain={} minifat_chain={} dir_secs={}", rep, b.len(), p.nsect, free, root_len, ms_chain, mf_chain, p.dir_secs.len());
+    }
 }
